@@ -91,17 +91,19 @@ def frames_equal(a, b):
 class Interpreter:
     """Executes an op list against real objects and against the history-free model."""
 
-    def __init__(self, datasets, index_name=None):
+    def __init__(self, datasets, index_name=None, index_start=0, int64_datasets=False):
         import pandas as pd
 
         self.data = []
         self.pristine = []
-        off = 0
+        off = index_start  # the first chunk's first label (0, or a cycle counter that started long ago)
         for i, X in enumerate(datasets):
             arr = np.asarray(X, dtype=float)
+            if int64_datasets and np.all(arr == np.round(arr)):
+                arr = arr.astype(np.int64)  # whole-numbered chunks may arrive as integers, between fractional ones
             # a new chunk may repeat the last 0..2 index labels of the previous one (update = combine_first:
             # the new values win on shared labels); the overlap is a deterministic function of the position
-            overlap = min((0, 1, 0, 2, 1)[i % 5], len(arr) - 1, off)
+            overlap = min((0, 1, 0, 2, 1)[i % 5], len(arr) - 1, off - index_start)
             off -= overlap
             df = pd.DataFrame(arr, index=pd.RangeIndex(off, off + len(arr), name=index_name),
                               columns=[f"c{j}" for j in range(arr.shape[1])])
@@ -548,7 +550,7 @@ def summarize(interp, n_ops):
 
 def check(case):
     """Replay entry point: executes a whole history."""
-    interp = Interpreter(case["datasets"], case.get("index_name"))
+    interp = Interpreter(case["datasets"], case.get("index_name"), case.get("index_start", 0), case.get("int64_datasets", False))
     for op in case["ops"]:
         interp.step(op)
     return summarize(interp, len(case["ops"]))
@@ -563,7 +565,7 @@ def dataset_pool(draw):
     for i in range(draw(st.integers(3, 5))):
         p = 1 if i == 0 else draw(st.sampled_from([1, 2, 2, 3]))
         n = draw(st.sampled_from([4, 7, 12, 20, 26]))
-        X, _ = draw(D.structured_matrix(n, p, max_shifts=2, max_spikes=1, max_bumps=1))
+        X, _ = draw(D.structured_matrix(n, p, exact=draw(st.sampled_from([False, True, None])), max_shifts=2, max_spikes=1, max_bumps=1))
         pool.append(X)
     return pool
 
@@ -576,11 +578,17 @@ def make_machine(tier, api):
             self.log = []
             self.datasets = None
             self.index_name = None
+            self.index_start = 0
+            self.int64_datasets = False
 
         def case(self):
             case = {"datasets": self.datasets, "ops": list(self.log)}
             if self.index_name is not None:
                 case["index_name"] = self.index_name
+            if self.index_start:
+                case["index_start"] = self.index_start
+            if self.int64_datasets:
+                case["int64_datasets"] = True
             return case
 
         def run(self, op):
@@ -601,7 +609,9 @@ def make_machine(tier, api):
         def init(self, pool, data):
             self.datasets = pool
             self.index_name = data.draw(st.sampled_from([None, "time"]))
-            self.interp = Interpreter(pool, self.index_name)
+            self.index_start = data.draw(st.sampled_from([0, 0, 1000, 7]))
+            self.int64_datasets = data.draw(st.booleans())
+            self.interp = Interpreter(pool, self.index_name, self.index_start, self.int64_datasets)
             # start with some objects so that the steps are not wasted on empty slots
             for sid in range(N_SHARED):
                 self.run({"op": "new_shared", "id": sid, "spec": data.draw(st.sampled_from(SHARED_COSTS))})
